@@ -159,7 +159,7 @@ func ClimbsAbove(name, target string) bool {
 
 // Gen draws a case.
 func Gen(t *rapid.T, outLinks bool) Case {
-	cfg := tgen.Config{MaxNodes: 16, Links: true, OutLinks: outLinks, Special: true, IgnoreNames: true}
+	cfg := tgen.Config{MaxNodes: 16, Links: true, OutLinks: outLinks, Special: true, IgnoreNames: true, HardLinks: true}
 	if outLinks {
 		cfg.LinkPct = 38
 	}
